@@ -142,6 +142,8 @@ func RunDiff(t *testing.T, d *DiffIn, keepLog bool) *Result {
 			}
 		}
 	}
+	defer plus.Release()
+	defer base.Release()
 	res.Counters["probe.preview-issued"] = previews
 	res.Counters["probe.preview-answered"] = answered
 	// 3. the event stream
@@ -176,7 +178,7 @@ func GenDiffIn(t *rapid.T) *DiffIn {
 	cfg := &in.Cfg
 	cfg.Ledgers = 1
 	cfg.Accounts = rapid.IntRange(2, 3).Draw(t, "accounts")
-	cfg.CacheSize = rapid.SampledFrom([]int{1, 1024}).Draw(t, "cache")
+	cfg.CacheSize = rapid.SampledFrom([]int{1, largeCache}).Draw(t, "cache")
 	cfg.BatchSize = rapid.SampledFrom([]int{1, 4096}).Draw(t, "batch")
 	for a := 0; a < cfg.Accounts; a++ {
 		if f := rapid.IntRange(0, p.FundMax).Draw(t, "fund"); f > 0 {
